@@ -101,7 +101,13 @@ pub fn run(ctx: &Ctx) -> Evidence {
         hash_matches_parent_in_queries: ctx.findings.open("F03", "C11"),
     };
     let minimised: std::sync::Mutex<std::collections::HashSet<String>> = std::sync::Mutex::new(Default::default());
+    // a follower that is starved costs a watchdog per scenario: a few witnesses are enough
+    let lag_violations = std::sync::atomic::AtomicUsize::new(0);
     par_shards(&mut ev, histories, |i, ev| {
+        if lag_violations.load(std::sync::atomic::Ordering::SeqCst) >= 3 {
+            ev.count("histories_skipped_after_lag_violations", 1);
+            return;
+        }
         let mut rng = base.fork(i as u64);
         let p = plan(&mut rng, max_requests, false);
         let steps = cl::generate(&mut rng, &p.gen_params, &quirks);
@@ -158,7 +164,11 @@ pub fn run(ctx: &Ctx) -> Evidence {
                 Verdict::Violation { signature, detail } => {
                     ev.eval(None);
                     // one minimisation per signature and run is enough (the evidence keeps one witness each)
-                    let first = minimised.lock().map(|mut m| m.insert(signature.clone())).unwrap_or(false);
+                    let lag = signature.contains("is not sent the leader's writes");
+                    if lag {
+                        lag_violations.fetch_add(1, std::sync::atomic::Ordering::SeqCst);
+                    }
+                    let first = !lag && minimised.lock().map(|mut m| m.insert(signature.clone())).unwrap_or(false);
                     let (min_steps, min_detail, reruns) = if first {
                         minimise(ctx, "C11", &p, &steps[..executed.min(steps.len())], &signature, detail, &rng)
                     } else {
